@@ -58,8 +58,9 @@ def curve_class_roundtrip(mix, t, comp, P, unit, comps):
         # both supplied: units still normalised
         st, c3 = core.call(U.DiffusionCurve, mixture=mix, membrane_name="M", feed_temperature=t, feed_compositions=[comp], permeances=[pin],
                            partial_fluxes=[(float(f[0]), float(f[1]))])
-        if st == "ok" and (c3.permeances[0][0].units != KG or not core.close(float(c3.permeances[0][0].value), P[0], 1e-11)):
-            v.append(core.viol("C09/unit_normalisation", "curve built from fluxes and %s permeances exposes %r %s" % (unit, c3.permeances[0][0].value, c3.permeances[0][0].units)))
+        if st == "ok" and any(c3.permeances[0][i].units != KG or not core.close(float(c3.permeances[0][i].value), P[i], 1e-11) for i in (0, 1)):
+            v.append(core.viol("C09/unit_normalisation", "curve built from fluxes and %s permeances %r exposes %r %s / %r %s" % (
+                unit, tuple(P), c3.permeances[0][0].value, c3.permeances[0][0].units, c3.permeances[0][1].value, c3.permeances[0][1].units)))
     return v
 
 
